@@ -2,6 +2,7 @@
 from __future__ import annotations
 
 import abc
+import copy as copy_module
 import warnings
 from typing import TYPE_CHECKING, cast
 
@@ -711,7 +712,7 @@ class HistogramBase(abc.ABC):
         a_copy._dtype = self.dtype
         a_copy._frequencies = frequencies
         a_copy._errors2 = errors2
-        a_copy._meta_data = self._meta_data.copy()
+        a_copy._meta_data = copy_module.deepcopy(self._meta_data)  # Mutable entries must not be shared
         a_copy.keep_missed = self.keep_missed
         a_copy._missed = missed
         return a_copy
@@ -1086,7 +1087,7 @@ class HistogramBase(abc.ABC):
         keys = keys.union(set(second._meta_data.keys()))
         return {
             key: (
-                first._meta_data.get(key, None)
+                copy_module.deepcopy(first._meta_data.get(key, None))
                 if first._meta_data.get(key, None) == second._meta_data.get(key, None)
                 else None
             )
